@@ -102,7 +102,7 @@ func GenPyPI(r *rand.Rand) string {
 		s += ".*"
 	}
 	if r.Intn(3) == 0 {
-		s += Pick(r, "", ".", "-", "_") + Pick(r, "a", "b", "rc", "alpha", "beta", "c", "pre", "preview", "A", "RC", "Beta") + Pick(r, "", ".", "-", "_") + Pick(r, "", "0", "1", "2", "01", "18446744073709551615", "9223372036854775808")
+		s += Pick(r, "", ".", "-", "_") + Pick(r, "a", "b", "rc", "alpha", "beta", "c", "pre", "preview", "A", "RC", "Beta") + Pick(r, "", ".", "-", "_") + Pick(r, "", "0", "1", "2", "01", "18446744073709551615", "9223372036854775808", "99999999999999999999∞", "1∞", "9223372036854775807")
 	}
 	if r.Intn(4) == 0 {
 		s += Pick(r, ".post", "-post", "post", ".rev", "-r", "-", "_post.", ".POST") + Pick(r, "0", "1", "2", "")
